@@ -2,6 +2,7 @@
 import os
 
 import common as C
+import optsdom
 import validout
 import c1113x
 
@@ -81,11 +82,14 @@ def run(ctx):
     ctx.add_summary(c1113x.run(ctx, "seg"), "C11 general (gen files)")
     summ = oracle(ctx, ctx.scale(8000, 150000))
     ctx.add_summary(summ, "File.SegmentFile oracle")
+    optsdom.run(ctx, "C11")
     if ctx.tier == "thorough":
         ctx.cov["forbidden_vernacular"] = C.forbidden_vernacular()
 
 
 def replay(path):
+    if optsdom.is_case(path):
+        return optsdom.replay(path)
     if c1113x.is_case(path):
         return c1113x.replay(path)
     ok, out = C.build_harness()
